@@ -56,6 +56,8 @@ func runCase(f []string) (res string) {
 		return caseRender(unhex(f[2]), unhex(data))
 	case "tree":
 		return caseTree(f[2:])
+	case "conc":
+		return caseConc(f[2:])
 	case "reg":
 		return caseReg(f[2:])
 	case "conv":
